@@ -101,7 +101,7 @@ def gen_plain_default(rng, ty, lib):
 # --------------------------------------------------------------------- libraries
 
 
-def gen_library(rng, tag, n_classes=None, unamb=False, with_deprecated=False):
+def gen_library(rng, tag, n_classes=None, unamb=False, with_deprecated=False, with_twins=False):
     """classes are numbered so that argument types only mention earlier classes (plus
     optional forward references for cycles)"""
     pkg = f"xvlib_{tag}"
@@ -174,6 +174,12 @@ def gen_library(rng, tag, n_classes=None, unamb=False, with_deprecated=False):
             if c["name"].startswith("C") and rng.random() < 0.5:
                 classes.append({"name": f"Old{c['name']}", "xpmid": f"{pkg}.old{c['name'].lower()}", "parent": c["name"],
                                 "kind": c["kind"], "deprecated": True, "args": []})
+    if with_twins:
+        import copy
+        for c in list(classes):
+            if c["name"].startswith("C") and not c["deprecated"]:
+                classes.append({"name": "T" + c["name"][1:], "xpmid": f"{pkg}.t{c['name'][1:]}", "parent": c["parent"], "kind": c["kind"],
+                                "deprecated": False, "args": copy.deepcopy(c["args"]), "twin_of": c["name"]})
     return {"pkg": pkg, "enums": enums, "classes": classes}
 
 
@@ -243,7 +249,7 @@ def all_args(lib, cname):
 def subclasses(lib, cname):
     res = [cname]
     for c in lib["classes"]:
-        if c["parent"] and c["parent"] in res and c["name"] not in res and not c["deprecated"]:
+        if c["parent"] and c["parent"] in res and c["name"] not in res and not c["deprecated"] and not c.get("twin_of"):
             res.append(c["name"])
     return res
 
